@@ -147,4 +147,10 @@ class Block2Cache:
                 req.remote.maximum_payload_size,
             )
         else:
+            # The complete response supersedes any earlier rendering that is
+            # still kept for serving later blocks
+            try:
+                del self._completes[block_key]
+            except KeyError:
+                pass
             return assembled
